@@ -1,1 +1,601 @@
-//! (placeholder; filled in by the check that owns it)
+//! Seed dumps for the untrusted-input sweeps (C01, C03, C20).
+//!
+//! `synthetic_seeds()` builds ~35 small dumps (each in little- and big-endian form) that
+//! together contain every stream type the reader knows, every CPU context kind, both handle
+//! descriptor versions (with an object-information chain), every misc-info / mac-crash-info
+//! version, crashpad module links with all annotation kinds, every CodeView record kind and
+//! both memory lists. Every seed is kept small so that a one-deviation sweep over all its
+//! offsets stays cheap. `corpus_seeds()` returns the non-empty `*.dmp` files of /repo/testdata.
+//! `fanin(..)` builds the "k references share one child of size s" shapes of DESIGN §3 C01.
+//!
+//! Everything here is deterministic (no clocks, no randomness, no hash-order dependence).
+use minidump_common::format as md;
+use minidump_synth as synth;
+use minidump_synth::{DumpSection, SectionExtra};
+use scroll::{Pread, Pwrite};
+use test_assembler::*;
+
+pub type Seed = (String, Vec<u8>);
+
+fn sc(e: Endian) -> scroll::Endian {
+    match e {
+        Endian::Little => scroll::LE,
+        Endian::Big => scroll::BE,
+    }
+}
+fn tag(e: Endian) -> &'static str {
+    match e {
+        Endian::Little => "le",
+        Endian::Big => "be",
+    }
+}
+
+/// A zeroed CPU context of type `T` with its flags word set so that the reader accepts it.
+fn ctx_bytes<T>(flags_off: usize, flags: u64, wide: bool, e: Endian) -> Vec<u8>
+where
+    T: for<'a> scroll::ctx::TryFromCtx<'a, scroll::Endian, [u8], Error = scroll::Error> + scroll::ctx::SizeWith<scroll::Endian>,
+{
+    let n = T::size_with(&sc(e));
+    let mut b = vec![0u8; n];
+    if wide {
+        b.pwrite_with(flags, flags_off, sc(e)).expect("ctx flags");
+    } else {
+        b.pwrite_with(flags as u32, flags_off, sc(e)).expect("ctx flags");
+    }
+    // a few recognisable register values so that prints/lookups see non-zero data
+    let _: T = b.pread_with(0, sc(e)).expect("ctx reads back");
+    b
+}
+
+fn sysinfo(e: Endian, arch: md::ProcessorArchitecture, os: md::PlatformId) -> synth::SystemInfo {
+    synth::SystemInfo::new(e).set_processor_architecture(arch as u16).set_platform_id(os as u32)
+}
+
+fn simple(ty: u32, section: Section) -> synth::SimpleStream {
+    synth::SimpleStream { stream_type: ty, section }
+}
+
+/// MINIDUMP_EXCEPTION_STREAM citing `ctx` (synth's own `Exception` cannot cite a context).
+fn exception_stream(e: Endian, tid: u32, code: u32, flags: u32, addr: u64, nparams: u32, ctx: Option<&Section>) -> synth::SimpleStream {
+    let mut s = Section::with_endian(e).D32(tid).D32(0).D32(code).D32(flags).D64(0).D64(addr).D32(nparams).D32(0);
+    for i in 0..15u64 {
+        s = s.D64(if i < 2 { [1u64, addr][i as usize] } else { 0x1000 + i });
+    }
+    s = match ctx {
+        Some(c) => s.cite_location(c),
+        None => s.D32(0).D32(0),
+    };
+    simple(md::MINIDUMP_STREAM_TYPE::ExceptionStream as u32, s)
+}
+
+/// The 9 CPU context kinds: (name, architecture, os, context bytes)
+fn cpu_kinds(e: Endian) -> Vec<(&'static str, md::ProcessorArchitecture, md::PlatformId, Vec<u8>)> {
+    use md::PlatformId as P;
+    use md::ProcessorArchitecture::*;
+    let sect = |s: Section| s.get_contents().expect("ctx section");
+    vec![
+        ("x86", PROCESSOR_ARCHITECTURE_INTEL, P::VER_PLATFORM_WIN32_NT, sect(synth::x86_context(e, 0x0040_1010, 0x7000_0010))),
+        ("amd64", PROCESSOR_ARCHITECTURE_AMD64, P::VER_PLATFORM_WIN32_NT, sect(synth::amd64_context(e, 0x0040_1010, 0x7000_0010))),
+        ("arm64", PROCESSOR_ARCHITECTURE_ARM64, P::MacOs, sect(synth::arm64_context(e, 0x0040_1010, 0x7000_0010))),
+        ("arm", PROCESSOR_ARCHITECTURE_ARM, P::Android, ctx_bytes::<md::CONTEXT_ARM>(0, 0x4000_0000 | 0x6, false, e)),
+        ("arm64old", PROCESSOR_ARCHITECTURE_ARM64_OLD, P::Ios, ctx_bytes::<md::CONTEXT_ARM64_OLD>(0, 0x8000_0000 | 0x6, true, e)),
+        ("mips", PROCESSOR_ARCHITECTURE_MIPS, P::Linux, ctx_bytes::<md::CONTEXT_MIPS>(0, 0x0004_0000 | 0x6, false, e)),
+        ("ppc", PROCESSOR_ARCHITECTURE_PPC, P::MacOs, ctx_bytes::<md::CONTEXT_PPC>(0, 0x2000_0000 | 0x3, false, e)),
+        ("ppc64", PROCESSOR_ARCHITECTURE_PPC64, P::MacOs, ctx_bytes::<md::CONTEXT_PPC64>(0, 0x0100_0000 | 0x3, true, e)),
+        ("sparc", PROCESSOR_ARCHITECTURE_SPARC, P::Solaris, ctx_bytes::<md::CONTEXT_SPARC>(0, 0x1000_0000 | 0x3, false, e)),
+    ]
+}
+
+fn finish(name: &str, e: Endian, d: synth::SynthMinidump) -> Seed {
+    (format!("{name}-{}", tag(e)), d.finish().unwrap_or_else(|| panic!("seed {name}: unresolved label")))
+}
+
+/// All synthetic seeds in one byte order.
+fn seeds_for(e: Endian) -> Vec<Seed> {
+    use md::MINIDUMP_STREAM_TYPE as ST;
+    use md::PlatformId as P;
+    use md::ProcessorArchitecture::*;
+    let mut out: Vec<Seed> = vec![];
+    let new = || synth::SynthMinidump::with_endian(e);
+    let sec = || Section::with_endian(e);
+
+    // ---- handle data, descriptor version 2 with an object-information chain
+    {
+        let mut d = new().add_system_info(sysinfo(e, PROCESSOR_ARCHITECTURE_AMD64, P::VER_PLATFORM_WIN32_NT));
+        let oi2 = sec().D32(0).D32(2).D32(16).D32(0xaaaa);
+        let oi1 = sec().D32(&oi2.file_offset()).D32(1).D32(16).D32(0xbbbb);
+        let tn = synth::DumpString::new("File", e);
+        let on = synth::DumpString::new("\\Device\\x", e);
+        let hs = sec()
+            .D32(16).D32(40).D32(2).D32(0)
+            .D64(0x44).D32(&tn.file_offset()).D32(&on.file_offset()).D32(1).D32(2).D32(3).D32(4).D32(&oi1.file_offset()).D32(0)
+            .D64(0x48).D32(0).D32(0).D32(0).D32(0).D32(0).D32(0).D32(0).D32(0);
+        d = d.add_stream(simple(ST::HandleDataStream as u32, hs)).add(tn).add(on).add(oi1).add(oi2);
+        out.push(finish("handles2", e, d));
+    }
+    // ---- handle data, descriptor version 1 (through synth)
+    {
+        let mut d = new().add_system_info(sysinfo(e, PROCESSOR_ARCHITECTURE_INTEL, P::VER_PLATFORM_WIN32_NT));
+        let tn = synth::DumpString::new("Event", e);
+        let on = synth::DumpString::new("ev", e);
+        d = d
+            .add_handle_descriptor(synth::HandleDescriptor::new(e, 0x10, Some(&tn), Some(&on), 1, 2, 3, 4))
+            .add_handle_descriptor(synth::HandleDescriptor::new(e, 0x14, None, None, 0, 0, 0, 0))
+            .add(tn)
+            .add(on);
+        out.push(finish("handles1", e, d));
+    }
+    // ---- thread info list + thread names + breakpad info
+    {
+        let mut d = new().add_system_info(sysinfo(e, PROCESSOR_ARCHITECTURE_AMD64, P::VER_PLATFORM_WIN32_NT));
+        let mut ti = sec().D32(12).D32(64).D32(2);
+        for t in 0..2u32 {
+            ti = ti.D32(10 + t).D32(t).D32(0).D32(0).D64(0x01d6_0000_0000_0000).D64(2).D64(3).D64(4).D64(5).D64(6);
+        }
+        d = d.add_stream(simple(ST::ThreadInfoListStream as u32, ti));
+        d = d.add_stream(simple(ST::BreakpadInfoStream as u32, sec().D32(3).D32(10).D32(11)));
+        for t in 0..2u32 {
+            let n = synth::DumpString::new(if t == 0 { "main" } else { "wörker" }, e);
+            d = d.add_thread_name(synth::ThreadName::new(e, 10 + t, Some(&n))).add(n);
+        }
+        d = d.add_thread_name(synth::ThreadName::new(e, 12, None));
+        out.push(finish("threadinfo", e, d));
+    }
+    // ---- assertion
+    {
+        let mut d = new().add_system_info(sysinfo(e, PROCESSOR_ARCHITECTURE_INTEL, P::VER_PLATFORM_WIN32_NT));
+        let mut a = sec();
+        for part in 0..3u16 {
+            for i in 0..128u16 {
+                a = a.D16(if i < 5 + part { 0x41 + part + i } else { 0 });
+            }
+        }
+        a = a.D32(7).D32(1);
+        d = d.add_stream(simple(ST::AssertionInfoStream as u32, a));
+        out.push(finish("assertion", e, d));
+    }
+    // ---- misc info, versions 1..5
+    for v in 1..=5u32 {
+        let mut d = new().add_system_info(sysinfo(e, PROCESSOR_ARCHITECTURE_AMD64, P::VER_PLATFORM_WIN32_NT));
+        let mut m = synth::MiscStream::new(e);
+        m.process_id = Some(42);
+        m.process_times = Some(synth::MiscFieldsProcessTimes { process_create_time: 0x5000_0000, process_user_time: 3, process_kernel_time: 4 });
+        if v >= 2 {
+            m.power_info = Some(Default::default());
+        }
+        if v >= 3 {
+            m.process_integrity_level = Some(1);
+            m.process_execute_flags = Some(2);
+            m.protected_process = Some(0);
+            m.time_zone = Some(Default::default());
+        }
+        if v >= 4 {
+            let mut b = synth::MiscFieldsBuildString::default();
+            for (i, c) in "build 1".encode_utf16().enumerate() {
+                b.build_string[i] = c;
+                b.dbg_bld_str[i] = c;
+            }
+            m.build_strings = Some(b);
+        }
+        if v >= 5 {
+            m.misc_5 = Some(synth::MiscInfo5Fields { xstate_data: Default::default(), process_cookie: Some(9) });
+        }
+        d = d.add_stream(m);
+        out.push(finish(&format!("misc{v}"), e, d));
+    }
+    // ---- one thread + exception + memory list entry for every CPU context kind
+    for (nm, arch, os, bytes) in cpu_kinds(e) {
+        let mut d = new().add_system_info(sysinfo(e, arch, os));
+        let stack = synth::Memory::with_section(sec().D64(0x0040_1020).D64(0x7000_0030).append_repeated(0x11, 48), 0x7000_0000);
+        let ctx = sec().append_bytes(&bytes);
+        let nparams = if nm == "x86" { 15 } else { 2 };
+        d = d.add_stream(exception_stream(e, 5, 0xC000_0005, 0, 0x0040_1010, nparams, Some(&ctx)));
+        d = d.add_thread(synth::Thread::new(e, 5, &stack, &ctx)).add_memory(stack).add(ctx);
+        out.push(finish(&format!("cpu-{nm}"), e, d));
+    }
+    // ---- crashpad info: module links, list / simple annotations, annotation objects of every kind
+    {
+        let mut d = new().add_system_info(sysinfo(e, PROCESSOR_ARCHITECTURE_INTEL, P::Linux));
+        let m1 = synth::ModuleCrashpadInfo::new(0, e)
+            .add_list_annotation("one")
+            .add_list_annotation("two")
+            .add_simple_annotation("k", "v")
+            .add_annotation_object("obj", synth::AnnotationValue::String("s".into()))
+            .add_annotation_object("inv", synth::AnnotationValue::Invalid)
+            .add_annotation_object("usr", synth::AnnotationValue::Custom(0x8001, vec![1, 2, 3, 4]))
+            .add_annotation_object("uns", synth::AnnotationValue::Custom(0x0002, vec![5, 6]));
+        let m2 = synth::ModuleCrashpadInfo::new(1, e).add_list_annotation("three");
+        d = d.add_crashpad_info(synth::CrashpadInfo::new(e).add_simple_annotation("a", "b").add_simple_annotation("c", "d").add_module(m1).add_module(m2));
+        out.push(finish("crashpad", e, d));
+    }
+    // ---- modules with every CodeView kind + misc record, unloaded modules
+    {
+        let mut d = new().add_system_info(sysinfo(e, PROCESSOR_ARCHITECTURE_AMD64, P::VER_PLATFORM_WIN32_NT));
+        let n1 = synth::DumpString::new("c:\\a.exe", e);
+        let cv1 = sec().D32(md::CvSignature::Pdb70 as u32).D32(0x0102_0304).D16(0x0506).D16(0x0708).append_bytes(&[9, 10, 11, 12, 13, 14, 15, 16]).D32(1).append_bytes(b"a.pdb\0");
+        let misc1 = sec().D32(1).D32(20).D8(0).D8(0).D8(0).D8(0).append_bytes(b"a.dbg\0\0\0");
+        d = d.add_module(synth::Module::new(e, 0x0040_0000, 0x1000, &n1, 0x4000_0000, 7, None).cv_record(&cv1).misc_record(&misc1)).add(n1).add(cv1).add(misc1);
+        let n2 = synth::DumpString::new("b.dll", e);
+        let cv2 = sec().D32(md::CvSignature::Pdb20 as u32).D32(0).D32(0x4000_0001).D32(2).append_bytes(b"b.pdb\0");
+        let misc2 = sec().D32(1).D32(24).D8(1).D8(0).D8(0).D8(0).D16(0x62).D16(0x2e).D16(0x64).D16(0).D16(0).D16(0);
+        d = d.add_module(synth::Module::new(e, 0x0040_1000, 0x1000, &n2, 0x4000_0001, 8, None).cv_record(&cv2).misc_record(&misc2)).add(n2).add(cv2).add(misc2);
+        let n3 = synth::DumpString::new("/lib/c.so", e);
+        let cv3 = sec().D32(md::CvSignature::Elf as u32).append_bytes(&[1, 2, 3, 4, 5, 6, 7, 8, 9, 10, 11, 12, 13, 14, 15, 16, 17, 18, 19, 20]);
+        d = d.add_module(synth::Module::new(e, 0xffff_ffff_ffff_f000, 0x1000, &n3, 0, 0, None).cv_record(&cv3)).add(n3).add(cv3);
+        let n4 = synth::DumpString::new("d", e);
+        let cv4 = sec().D32(md::CvSignature::Cv50 as u32).D32(0).D32(0);
+        d = d.add_module(synth::Module::new(e, 0x0040_3000, 0, &n4, 0, 0, None).cv_record(&cv4)).add(n4).add(cv4);
+        let um = synth::DumpString::new("gone.dll", e);
+        d = d
+            .add_unloaded_module(synth::UnloadedModule::new(e, 0x5000_0000, 0x1000, &um, 1, 2))
+            .add_unloaded_module(synth::UnloadedModule::new(e, 0x5000_0800, 0x1000, &um, 3, 4))
+            .add(um);
+        out.push(finish("modules", e, d));
+    }
+    // ---- both memory lists + memory info list
+    {
+        let mut d = new().add_system_info(sysinfo(e, PROCESSOR_ARCHITECTURE_AMD64, P::VER_PLATFORM_WIN32_NT));
+        d = d
+            .add_memory(synth::Memory::with_section(sec().append_repeated(3, 24), 0x3000))
+            .add_memory(synth::Memory::with_section(sec().append_repeated(4, 16), 0xffff_ffff_ffff_fff0))
+            .add_memory64(synth::Memory::with_section(sec().append_repeated(1, 32), 0x1000))
+            .add_memory64(synth::Memory::with_section(sec().append_repeated(2, 16), 0x2000))
+            .add_memory_info(synth::MemoryInfo::new(e, 0x1_0000, 0x1_0000, 4, 0x1000, 0x1000, 4, 0x2_0000))
+            .add_memory_info(synth::MemoryInfo::new(e, 0x1_1000, 0x1_0000, 0x20, 0x1000, 0x1000, 0x20, 0x100_0000))
+            .add_memory_info(synth::MemoryInfo::new(e, 0xffff_ffff_ffff_f000, 0, 1, 0x1000, 0x1_0000, 1, 0));
+        out.push(finish("memory", e, d));
+    }
+    // ---- Linux text streams
+    {
+        let mut d = new().add_system_info(sysinfo(e, PROCESSOR_ARCHITECTURE_INTEL, P::Linux));
+        d = d
+            .set_linux_maps(b"00400000-00401000 r-xp 00000000 00:00 0 /bin/x\n00401000-00402000 rw-p 00000000 00:00 0 [heap]\nffffffffff600000-ffffffffff601000 --xp 00000000 00:00 0 [vsyscall]\n")
+            .set_linux_lsb_release(b"DISTRIB_ID=x\nDISTRIB_RELEASE=\"1\"\n")
+            .set_linux_proc_status(b"Name:\tx\nPid:\t5\n")
+            .set_linux_cpu_info(b"processor : 0\nmicrocode : 0x1\n\nprocessor : 1\n")
+            .set_linux_environ(b"A=B\0C=\0")
+            .set_linux_proc_limits(b"Limit Soft Hard Units\nMax cpu time  1  2  s\nMax x unlimited unlimited\n")
+            .set_soft_errors("[{\"x\":1}]");
+        d = d.add_stream(simple(ST::LinuxCmdLine as u32, sec().append_bytes(b"/bin/x\0-a\0")));
+        d = d.add_stream(simple(ST::LinuxAuxv as u32, sec().D32(3).D32(0x40).D32(0).D32(0)));
+        d = d.add_stream(simple(ST::LinuxDsoDebug as u32, sec().D32(1).D32(0).D32(0).D32(0)));
+        out.push(finish("linux", e, d));
+    }
+    // ---- mac crash info, record versions 1, 4 and 5 + boot args
+    for v in [1u64, 4, 5] {
+        let mut d = new().add_system_info(sysinfo(e, PROCESSOR_ARCHITECTURE_AMD64, P::MacOs));
+        let fixed: u32 = match v {
+            1 => 16,
+            4 => 32,
+            _ => 40,
+        };
+        let mut recs = vec![];
+        for r in 0..2u64 {
+            let mut s = sec().D64(ST::MozMacosCrashInfoStream as u32 as u64).D64(v);
+            if v >= 4 {
+                s = s.D64(7 + r).D64(1);
+            }
+            if v >= 5 {
+                s = s.D64(3);
+            }
+            if v >= 4 {
+                s = s.append_bytes(b"/m\0").append_bytes(b"msg\0").append_bytes(b"sig\0").append_bytes(b"bt\0").append_bytes(b"\0");
+            }
+            recs.push(s);
+        }
+        let mut h = sec().D32(ST::MozMacosCrashInfoStream as u32).D32(2).D32(fixed);
+        for i in 0..20 {
+            h = match recs.get(i) {
+                Some(r) => h.cite_location(r),
+                None => h.D32(0).D32(0),
+            };
+        }
+        d = d.add_stream(simple(ST::MozMacosCrashInfoStream as u32, h));
+        for r in recs {
+            d = d.add(r);
+        }
+        let ba = synth::DumpString::new("-v x=1", e);
+        d = d.add_stream(simple(ST::MozMacosBootargsStream as u32, sec().D32(ST::MozMacosBootargsStream as u32).D64(&ba.file_offset()))).add(ba);
+        out.push(finish(&format!("mac{v}"), e, d));
+    }
+    // ---- system info with a CSD string and non-x86 cpu info; unknown / unimplemented / duplicate / empty streams
+    {
+        let csd = synth::DumpString::new("Service Pack 1", e);
+        let si = sec()
+            .D16(PROCESSOR_ARCHITECTURE_ARM64 as u16).D16(6).D16(0x0102).D8(4).D8(1)
+            .D32(10).D32(0).D32(19041).D32(P::VER_PLATFORM_WIN32_NT as u32)
+            .D32(&csd.file_offset()).D16(0x100).D16(0)
+            .D64(0x1234_5678).D64(0xff);
+        let mut d = new().add_stream(simple(ST::SystemInfoStream as u32, si)).add(csd);
+        d = d.add_stream(simple(0x1234_5678, sec().D32(1).D32(2)));
+        d = d.add_stream(simple(ST::CommentStreamA as u32, sec().append_bytes(b"hello\0")));
+        d = d.add_stream(simple(ST::CommentStreamW as u32, sec().D16(0x68).D16(0x69).D16(0)));
+        d = d.add_stream(simple(ST::FunctionTable as u32, sec().D32(0).D32(0)));
+        d = d.add_stream(simple(ST::UnusedStream as u32, sec()));
+        d = d.add_stream(simple(ST::BreakpadInfoStream as u32, sec().D32(1).D32(1).D32(2)));
+        d = d.add_stream(simple(ST::BreakpadInfoStream as u32, sec().D32(3).D32(3).D32(4)));
+        out.push(finish("sysinfo-misc-streams", e, d));
+    }
+    // ---- a "whole process" dump: two x86 threads sharing the file with modules, names, memory, exception
+    {
+        let mut d = new().add_system_info(sysinfo(e, PROCESSOR_ARCHITECTURE_INTEL, P::VER_PLATFORM_WIN32_NT));
+        let ctx0 = synth::x86_context(e, 0x0040_0010, 0x7000_0000);
+        d = d.add_stream(exception_stream(e, 11, 0x8000_0003, 1, 0x0040_0010, 0, Some(&ctx0)));
+        d = d.add_stream(simple(ST::BreakpadInfoStream as u32, sec().D32(3).D32(10).D32(11)));
+        for t in 0..2u32 {
+            let stack = synth::Memory::with_section(sec().append_repeated(0, 32), 0x7000_0000 + 0x1000 * t as u64);
+            let th = if t == 0 {
+                synth::Thread::new(e, 10, &stack, &ctx0)
+            } else {
+                synth::Thread::new(e, 11, &stack, &ctx0)
+            };
+            d = d.add_thread(th).add_memory(stack);
+        }
+        d = d.add(ctx0);
+        let n = synth::DumpString::new("x.exe", e);
+        d = d.add_module(synth::Module::new(e, 0x0040_0000, 0x1000, &n, 0, 0, None)).add(n);
+        out.push(finish("process-x86", e, d));
+    }
+    out
+}
+
+/// Every synthetic seed, little-endian ones first. Names end in `-le` / `-be`.
+pub fn synthetic_seeds() -> Vec<Seed> {
+    let mut v = seeds_for(Endian::Little);
+    v.extend(seeds_for(Endian::Big));
+    v
+}
+
+/// The non-empty `*.dmp` files of /repo/testdata, sorted by name.
+pub fn corpus_seeds() -> Vec<Seed> {
+    let dir = format!("{}/testdata", crate::core::REPO_ROOT);
+    let mut names: Vec<String> = std::fs::read_dir(&dir)
+        .unwrap_or_else(|e| panic!("cannot list {dir}: {e}"))
+        .filter_map(|d| d.ok())
+        .map(|d| d.file_name().to_string_lossy().to_string())
+        .filter(|n| n.ends_with(".dmp"))
+        .collect();
+    names.sort();
+    let mut out = vec![];
+    for n in names {
+        let b = std::fs::read(format!("{dir}/{n}")).unwrap_or_else(|e| panic!("cannot read {n}: {e}"));
+        if !b.is_empty() {
+            out.push((format!("corpus/{n}"), b));
+        }
+    }
+    out
+}
+
+// ---------------------------------------------------------------------------------------------
+// header / directory of a seed, read independently of the code under test
+
+#[derive(Clone, Debug)]
+pub struct DirEntry {
+    pub stream_type: u32,
+    pub size: u32,
+    pub rva: u32,
+}
+#[derive(Clone, Debug, Default)]
+pub struct Layout {
+    pub big_endian: bool,
+    pub dir_rva: u32,
+    pub entries: Vec<DirEntry>,
+}
+impl Layout {
+    /// What a file offset belongs to: "header", "directory", "stream:<type name or number>" or "aux"
+    /// (bytes referenced from a stream by RVA, outside every directory range).
+    pub fn region(&self, off: usize) -> String {
+        if off < 32 {
+            return "header".into();
+        }
+        let o = off as u64;
+        let d = self.dir_rva as u64;
+        if o >= d && o < d + 12 * self.entries.len() as u64 {
+            return "directory".into();
+        }
+        // the innermost (smallest) enclosing stream, first in directory order on ties
+        let mut best: Option<&DirEntry> = None;
+        for e in &self.entries {
+            if e.size > 0 && o >= e.rva as u64 && o < e.rva as u64 + e.size as u64 && best.map_or(true, |b| e.size < b.size) {
+                best = Some(e);
+            }
+        }
+        match best {
+            Some(e) => format!("stream:{}", stream_name(e.stream_type)),
+            None => "aux".into(),
+        }
+    }
+    /// rva of the innermost directory range that contains `off`
+    pub fn enclosing_start(&self, off: usize) -> Option<u32> {
+        let o = off as u64;
+        let mut best: Option<&DirEntry> = None;
+        for e in &self.entries {
+            if e.size > 0 && o >= e.rva as u64 && o < e.rva as u64 + e.size as u64 && best.map_or(true, |b| e.size < b.size) {
+                best = Some(e);
+            }
+        }
+        best.map(|e| e.rva)
+    }
+}
+pub fn stream_name(t: u32) -> String {
+    match ALL_STREAM_TYPES.iter().find(|s| **s as u32 == t) {
+        Some(s) => format!("{s:?}"),
+        None => format!("{t:#x}"),
+    }
+}
+
+/// Every stream type constant minidump-common defines.
+pub const ALL_STREAM_TYPES: &[md::MINIDUMP_STREAM_TYPE] = {
+    use md::MINIDUMP_STREAM_TYPE::*;
+    &[
+        UnusedStream, ReservedStream0, ReservedStream1, ThreadListStream, ModuleListStream, MemoryListStream, ExceptionStream, SystemInfoStream,
+        ThreadExListStream, Memory64ListStream, CommentStreamA, CommentStreamW, HandleDataStream, FunctionTable, UnloadedModuleListStream,
+        MiscInfoStream, MemoryInfoListStream, ThreadInfoListStream, HandleOperationListStream, TokenStream, JavaScriptDataStream,
+        SystemMemoryInfoStream, ProcessVmCountersStream, IptTraceStream, ThreadNamesStream, ceStreamNull, ceStreamSystemInfo, ceStreamException,
+        ceStreamModuleList, ceStreamProcessList, ceStreamThreadList, ceStreamThreadContextList, ceStreamThreadCallStackList,
+        ceStreamMemoryVirtualList, ceStreamMemoryPhysicalList, ceStreamBucketParameters, ceStreamProcessModuleMap, ceStreamDiagnosisList,
+        LastReservedStream, BreakpadInfoStream, AssertionInfoStream, LinuxCpuInfo, LinuxProcStatus, LinuxLsbRelease, LinuxCmdLine, LinuxEnviron,
+        LinuxAuxv, LinuxMaps, LinuxDsoDebug, CrashpadInfoStream, MozMacosCrashInfoStream, MozMacosBootargsStream, MozLinuxLimits, MozSoftErrors,
+    ]
+};
+
+/// Header + directory of `bytes` (None when there is no readable header).
+pub fn layout(bytes: &[u8]) -> Option<Layout> {
+    if bytes.len() < 32 {
+        return None;
+    }
+    let sig_le = u32::from_le_bytes(bytes[0..4].try_into().unwrap());
+    let be = if sig_le == md::MINIDUMP_SIGNATURE {
+        false
+    } else if u32::from_be_bytes(bytes[0..4].try_into().unwrap()) == md::MINIDUMP_SIGNATURE {
+        true
+    } else {
+        return None;
+    };
+    let rd = |o: usize| -> Option<u32> {
+        let s: [u8; 4] = bytes.get(o..o + 4)?.try_into().ok()?;
+        Some(if be { u32::from_be_bytes(s) } else { u32::from_le_bytes(s) })
+    };
+    let count = rd(8)?;
+    let dir = rd(12)?;
+    let mut entries = vec![];
+    for i in 0..count.min(4096) as usize {
+        let o = dir as usize + 12 * i;
+        match (rd(o), rd(o + 4), rd(o + 8)) {
+            (Some(t), Some(s), Some(r)) => entries.push(DirEntry { stream_type: t, size: s, rva: r }),
+            _ => break,
+        }
+    }
+    Some(Layout { big_endian: be, dir_rva: dir, entries })
+}
+
+// ---------------------------------------------------------------------------------------------
+// fan-in shapes: k references sharing one child of size s
+
+pub const FANIN_KINDS: &[&str] = &["thread-names", "modules", "unloaded-modules", "handles2", "memory", "memory64", "threads", "crashpad-links", "crashpad-dict"];
+
+/// Build one fan-in dump. `k` references (for "crashpad-links": `k` links x `k2` list entries) share
+/// one child of size `s`.
+pub fn fanin(kind: &str, k: u32, k2: u32, s: u32, e: Endian) -> Vec<u8> {
+    use md::MINIDUMP_STREAM_TYPE as ST;
+    use md::PlatformId as P;
+    use md::ProcessorArchitecture::*;
+    let sec = || Section::with_endian(e);
+    let mut d = synth::SynthMinidump::with_endian(e).add_system_info(sysinfo(e, PROCESSOR_ARCHITECTURE_INTEL, P::VER_PLATFORM_WIN32_NT));
+    let text: String = "a".repeat(s as usize);
+    match kind {
+        "thread-names" => {
+            let n = synth::DumpString::new(&text, e);
+            for i in 0..k {
+                d = d.add_thread_name(synth::ThreadName::new(e, i, Some(&n)));
+            }
+            d = d.add(n);
+        }
+        "modules" => {
+            let n = synth::DumpString::new(&text, e);
+            let cv = sec().D32(md::CvSignature::Pdb70 as u32).append_repeated(7, 16).D32(1).append_bytes(text.as_bytes()).D8(0);
+            for i in 0..k {
+                d = d.add_module(synth::Module::new(e, 0x1000_0000 + 0x1000 * i as u64, 0x1000, &n, 0, 0, None).cv_record(&cv).misc_record(&cv));
+            }
+            d = d.add(n).add(cv);
+        }
+        "unloaded-modules" => {
+            let n = synth::DumpString::new(&text, e);
+            for i in 0..k {
+                d = d.add_unloaded_module(synth::UnloadedModule::new(e, 0x1000_0000 + 0x800 * i as u64, 0x1000, &n, 0, 0));
+            }
+            d = d.add(n);
+        }
+        "handles2" => {
+            // k descriptors share type name, object name and one object-info chain of length min(s, 64)
+            let n = synth::DumpString::new(&text, e);
+            let chain = s.min(64) as usize;
+            let infos: Vec<Section> = (0..chain).map(|_| sec()).collect();
+            let mut built = vec![];
+            for (i, sct) in infos.into_iter().enumerate().rev() {
+                let next: Option<&Section> = built.last();
+                let b = match next {
+                    Some(nx) => sct.D32(&nx.file_offset()),
+                    None => sct.D32(0),
+                }
+                .D32((i % 5) as u32)
+                .D32(16)
+                .D32(i as u32);
+                built.push(b);
+            }
+            let first = built.last().map(|b: &Section| b.file_offset());
+            let mut hs = sec().D32(16).D32(40).D32(k).D32(0);
+            for i in 0..k {
+                hs = hs.D64(i as u64).D32(&n.file_offset()).D32(&n.file_offset()).D32(0).D32(0).D32(0).D32(0);
+                hs = match &first {
+                    Some(f) => hs.D32(f),
+                    None => hs.D32(0),
+                }
+                .D32(0);
+            }
+            d = d.add_stream(simple(ST::HandleDataStream as u32, hs)).add(n);
+            for b in built {
+                d = d.add(b);
+            }
+        }
+        "memory" => {
+            let m = sec().append_repeated(0x5a, s as usize);
+            let mut l = sec().D32(k);
+            for i in 0..k {
+                l = l.D64(0x1000 + (s as u64) * i as u64).cite_location(&m);
+            }
+            d = d.add_stream(simple(ST::MemoryListStream as u32, l)).add(m);
+        }
+        "memory64" => {
+            // k descriptors of size s over one backing block of size s: only the first fits, the reader must reject or bound the rest
+            let m = sec().append_repeated(0x5a, s as usize);
+            let mut l = sec().D64(k as u64).D64(&m.file_offset());
+            for i in 0..k {
+                l = l.D64(0x1000 + (s as u64) * i as u64).D64(s as u64);
+            }
+            d = d.add_stream(simple(ST::Memory64ListStream as u32, l)).add(m);
+        }
+        "threads" => {
+            let stack = synth::Memory::with_section(sec().append_repeated(0, s as usize), 0x7000_0000);
+            let ctx = synth::x86_context(e, 0x0040_0010, 0x7000_0000);
+            for i in 0..k {
+                d = d.add_thread(synth::Thread::new(e, i, &stack, &ctx));
+            }
+            d = d.add(stack).add(ctx);
+        }
+        "crashpad-links" => {
+            // k links -> one module info -> list annotations: k2 RVAs -> one string of s bytes
+            let st = synth::DumpUtf8String::new(&text, e);
+            let mut list = sec().D32(k2);
+            for _ in 0..k2 {
+                list = list.D32(&st.file_offset());
+            }
+            let info = sec().D32(1).cite_location(&list).D32(0).D32(0).D32(0).D32(0);
+            let mut links = sec().D32(k);
+            for i in 0..k {
+                links = links.D32(i).cite_location(&info);
+            }
+            let cp = sec().D32(1).append_repeated(0, 32).D32(0).D32(0).cite_location(&links);
+            d = d.add_stream(simple(ST::CrashpadInfoStream as u32, cp)).add(links).add(info).add(list).add(st);
+        }
+        "crashpad-dict" => {
+            // top-level simple annotations: k entries sharing one key and one value string of s bytes;
+            // one module info whose annotation objects are k2 entries sharing name and value
+            let st = synth::DumpUtf8String::new(&text, e);
+            let mut dict = sec().D32(k);
+            for _ in 0..k {
+                dict = dict.D32(&st.file_offset()).D32(&st.file_offset());
+            }
+            let mut objs = sec().D32(k2);
+            for _ in 0..k2 {
+                objs = objs.D32(&st.file_offset()).D16(1).D16(0).D32(&st.file_offset());
+            }
+            let info = sec().D32(1).D32(0).D32(0).cite_location(&dict).cite_location(&objs);
+            let links = sec().D32(1).D32(0).cite_location(&info);
+            let cp = sec().D32(1).append_repeated(0, 32).cite_location(&dict).cite_location(&links);
+            d = d.add_stream(simple(ST::CrashpadInfoStream as u32, cp)).add(links).add(info).add(dict).add(objs).add(st);
+        }
+        other => panic!("unknown fan-in kind {other}"),
+    }
+    d.finish().unwrap_or_else(|| panic!("fan-in {kind}: unresolved label"))
+}
